@@ -25,6 +25,7 @@ type recorder struct {
 	trace  []string
 	status []*types.Status
 	snap   []string
+	gate   chan struct{} // when set: OnEvent waits for it (a slow application callback)
 }
 
 func (l *recorder) OnConnected() {
@@ -34,6 +35,9 @@ func (l *recorder) OnConnected() {
 }
 
 func (l *recorder) OnEvent(s *types.Status) {
+	if l.gate != nil {
+		<-l.gate
+	}
 	l.mu.Lock()
 	defer l.mu.Unlock()
 	t := "ev " + strings.TrimPrefix(statusTokens(s), "vals ")
@@ -114,9 +118,26 @@ func streamListen(c *ctx) {
 			dgs = append(dgs, eventDatagram(r, cl))
 			cls = append(cls, cl)
 		}
+		// the first runs: three valid events, an application callback that is still busy with the first one
+		// when the shutdown signal comes (events in flight at shutdown); all three are still delivered
+		slow := n < 3
+		if slow {
+			dgs, cls, k = [][]byte{}, []string{}, 3
+			for i := 0; i < 3; i++ {
+				dgs = append(dgs, eventDatagram(r, "valid"))
+				cls = append(cls, "valid-slow-callback")
+			}
+		}
 		u, d := newClient(nil, types.BroadcastAddr{})
 		d.Datagrams = dgs
 		rec := &recorder{}
+		if slow {
+			rec.gate = make(chan struct{})
+			go func(g chan struct{}) {
+				time.Sleep(30 * time.Millisecond)
+				close(g)
+			}(rec.gate)
+		}
 		q := make(chan os.Signal, 1)
 		done := make(chan string, 1)
 		go func() {
@@ -128,15 +149,28 @@ func streamListen(c *ctx) {
 			})
 		}()
 		deadline := time.Now().Add(3 * time.Second)
-		for rec.count() < 1+len(dgs) && time.Now().Before(deadline) {
-			time.Sleep(200 * time.Microsecond)
+		if slow {
+			for rec.count() < 1 && time.Now().Before(deadline) {
+				time.Sleep(200 * time.Microsecond)
+			}
+			time.Sleep(5 * time.Millisecond) // the callback is busy, further events are queued behind it
+		} else {
+			for rec.count() < 1+len(dgs) && time.Now().Before(deadline) {
+				time.Sleep(200 * time.Microsecond)
+			}
+			time.Sleep(300 * time.Microsecond) // would a callback too many arrive?
 		}
-		time.Sleep(300 * time.Microsecond) // would a callback too many arrive?
 		q <- syscall.SIGINT
 		end := "hung"
 		select {
 		case end = <-done:
 		case <-time.After(3 * time.Second):
+		}
+		if slow {
+			// Listen may return while the dispatch goroutine is still inside the last callback: give it time to finish
+			for w := time.Now().Add(time.Second); rec.count() < 1+len(dgs) && time.Now().Before(w); {
+				time.Sleep(200 * time.Microsecond)
+			}
 		}
 		rec.mu.Lock()
 		trace := append([]string{}, rec.trace...)
